@@ -10,16 +10,20 @@ package main
 
 import (
 	"bufio"
+	"context"
 	"encoding/json"
+	"errors"
 	"fmt"
 	"math/rand"
 	"os"
 	"runtime"
 	"strconv"
 	"sync"
+	"sync/atomic"
 
 	"go.opentelemetry.io/collector/component"
 	"go.opentelemetry.io/collector/component/componentstatus"
+	"go.opentelemetry.io/collector/internal/sharedcomponent"
 	"go.opentelemetry.io/collector/service/internal/status"
 )
 
@@ -147,12 +151,35 @@ func conc(seed int64, rounds, G, P, M int, out string) error {
 			log = append(log, rec{Ev: "event", Inst: rev[id], St: nameOf(ev.Status())})
 		}, func(error) {})
 		progs := make([][]string, G)
+		for g := range progs {
+			progs[g] = []string{}
+		}
 		type op struct {
 			inst int
 			what string
 		}
 		ops := make([][]op, G)
-		for g := 0; g < G; g++ {
+		// every second round is FOCUSED: one instance is brought to a chosen state sequentially, then every goroutine
+		// fires one or two reports at it at the same moment (check-then-act windows need exactly this contention)
+		focused := r%4 != 0
+		if focused {
+			// systematic: every (state-reaching prefix, report A, report B) combination, two goroutines, one report each
+			prefixes := [][]string{{}, {"Starting"}, {"Starting", "OK"}, {"Starting", "RecoverableError"}, {"Starting", "PermanentError"},
+				{"Starting", "OK", "Stopping"}, {"Starting", "Stopping"}, {"Starting", "OK", "RecoverableError"}}
+			combo := r - r/4 - 1
+			pre := prefixes[combo%len(prefixes)]
+			a := kinds[(combo/len(prefixes))%len(kinds)]
+			b := kinds[(combo/len(prefixes)/len(kinds))%len(kinds)]
+			for _, w := range pre {
+				rep.ReportStatus(ids[0], componentstatus.NewEvent(byName[w]))
+				progs[0] = append(progs[0], "i1", w)
+			}
+			ops[0] = append(ops[0], op{0, a})
+			progs[0] = append(progs[0], "i1", a)
+			ops[1] = append(ops[1], op{0, b})
+			progs[1] = append(progs[1], "i1", b)
+		}
+		for g := 0; g < G && !focused; g++ {
 			for p := 0; p < P; p++ {
 				i := rng.Intn(M)
 				// bias towards sequences that get somewhere: Starting early, lifecycle-ish afterwards
@@ -170,12 +197,15 @@ func conc(seed int64, rounds, G, P, M int, out string) error {
 			}
 		}
 		var wg sync.WaitGroup
-		start := make(chan struct{})
+		var start atomic.Bool
+		var ready atomic.Int32
 		for g := 0; g < G; g++ {
 			wg.Add(1)
 			go func(g int) {
 				defer wg.Done()
-				<-start
+				ready.Add(1)
+				for !start.Load() { // spin: all goroutines leave the barrier within nanoseconds of each other
+				}
 				for _, o := range ops[g] {
 					if o.what == "okIfStarting" {
 						rep.ReportOKIfStarting(ids[o.inst])
@@ -188,7 +218,10 @@ func conc(seed int64, rounds, G, P, M int, out string) error {
 				}
 			}(g)
 		}
-		close(start)
+		for int(ready.Load()) < G {
+			runtime.Gosched()
+		}
+		start.Store(true)
 		wg.Wait()
 		if err := enc.Encode(rec{Ev: "reset", Prog: progs}); err != nil {
 			return err
@@ -202,9 +235,136 @@ func conc(seed int64, rounds, G, P, M int, out string) error {
 	return enc.Encode(rec{Ev: "end"})
 }
 
+// ------------------------------------------------------------------------------------------- shared component
+
+type sstep struct {
+	Op    string              `json:"op"`
+	Inst  string              `json:"inst"`
+	Fails bool                `json:"fails"`
+	St    string              `json:"st"`
+	After map[string][]string `json:"after"`
+}
+
+// instHost is the host the graph hands to a component instance: Report goes to the service reporter under the
+// instance's id (service/internal/graph/host.go does the same through componentstatus.ReportStatus).
+type instHost struct {
+	id  *componentstatus.InstanceID
+	rep status.Reporter
+}
+
+func (h *instHost) GetExtensions() map[component.ID]component.Component { return nil }
+func (h *instHost) Report(ev *componentstatus.Event)                       { h.rep.ReportStatus(h.id, ev) }
+
+type scomp struct {
+	startErr, stopErr error
+	host              component.Host
+}
+
+func (c *scomp) Start(_ context.Context, h component.Host) error { c.host = h; return c.startErr }
+func (c *scomp) Shutdown(context.Context) error                  { return c.stopErr }
+
+func sharedReplay(in, out string) error {
+	f, err := os.Open(in)
+	if err != nil {
+		return err
+	}
+	defer f.Close()
+	sc := bufio.NewScanner(f)
+	sc.Buffer(make([]byte, 1<<20), 1<<26)
+	type smis struct {
+		Beh   int                 `json:"beh"`
+		Step  int                 `json:"step"`
+		Want  map[string][]string `json:"want"`
+		Got   map[string][]string `json:"got"`
+		Steps []sstep             `json:"steps"`
+	}
+	var mism []smis
+	n := 0
+	for sc.Scan() {
+		var beh []sstep
+		if err := json.Unmarshal(sc.Bytes(), &beh); err != nil {
+			return err
+		}
+		got := map[string][]string{}
+		ids := map[string]*componentstatus.InstanceID{}
+		rev := map[*componentstatus.InstanceID]string{}
+		rep := status.NewReporter(func(id *componentstatus.InstanceID, ev *componentstatus.Event) {
+			got[rev[id]] = append(got[rev[id]], nameOf(ev.Status()))
+		}, func(error) {})
+		for _, st := range beh {
+			for name := range st.After {
+				if _, ok := ids[name]; !ok {
+					ids[name] = newID(name)
+					rev[ids[name]] = name
+					got[name] = []string{}
+				}
+			}
+		}
+		comp := &scomp{}
+		m := sharedcomponent.NewMap[string, *scomp]()
+		load := func() *sharedcomponent.Component[*scomp] {
+			c, _ := m.LoadOrStore("key", func() (*scomp, error) { return comp, nil })
+			return c
+		}
+		shared := load()
+		ctx := context.Background()
+		for k, st := range beh {
+			switch st.Op {
+			case "gstart":
+				id := ids[st.Inst]
+				if st.Fails {
+					comp.startErr = errors.New("scripted start failure")
+				}
+				rep.ReportStatus(id, componentstatus.NewEvent(componentstatus.StatusStarting))
+				if err := shared.Start(ctx, &instHost{id: id, rep: rep}); err != nil {
+					rep.ReportStatus(id, componentstatus.NewPermanentErrorEvent(err))
+				} else {
+					rep.ReportOKIfStarting(id)
+				}
+			case "report":
+				if comp.host != nil {
+					componentstatus.ReportStatus(comp.host, componentstatus.NewEvent(byName[st.St]))
+				}
+			case "gstop":
+				id := ids[st.Inst]
+				if st.Fails {
+					comp.stopErr = errors.New("scripted shutdown failure")
+				}
+				rep.ReportStatus(id, componentstatus.NewEvent(componentstatus.StatusStopping))
+				if err := shared.Shutdown(ctx); err != nil {
+					rep.ReportStatus(id, componentstatus.NewPermanentErrorEvent(err))
+				} else {
+					rep.ReportStatus(id, componentstatus.NewEvent(componentstatus.StatusStopped))
+				}
+			}
+			same := true
+			for name, want := range st.After {
+				if fmt.Sprint(want) != fmt.Sprint(got[name]) {
+					same = false
+				}
+			}
+			if !same {
+				if len(mism) < 40 {
+					cp := map[string][]string{}
+					for a, b := range got {
+						cp[a] = append([]string{}, b...)
+					}
+					mism = append(mism, smis{Beh: n, Step: k, Want: st.After, Got: cp, Steps: beh})
+				}
+				break
+			}
+		}
+		n++
+	}
+	b, _ := json.Marshal(map[string]any{"behaviours": n, "mismatches": mism})
+	return os.WriteFile(out, b, 0o644)
+}
+
 func main() {
 	var err error
 	switch {
+	case len(os.Args) == 4 && os.Args[1] == "shared":
+		err = sharedReplay(os.Args[2], os.Args[3])
 	case len(os.Args) == 4 && os.Args[1] == "replay":
 		err = replay(os.Args[2], os.Args[3])
 	case len(os.Args) == 8 && os.Args[1] == "conc":
